@@ -366,6 +366,8 @@ def run(ctx):
         except (Undecided, KeyError, TypeError, ValueError, IndexError, AttributeError) as e:
             ctx.unrecognised(r4, shim, f"stitcher [fixed at {fixed_at}]", f"not interpretable: {type(e).__name__}: {e}")
 
+    jax_objective_point(ctx, r4, repo, table, mk, shim)
+
     # ------------------------------------------------------------ R5
     pp = mix.methods["_internal_postprocess"]
     try:
@@ -555,3 +557,45 @@ def _optimizers_interpreted(ctx, rid, repo):
                 ctx.holds(rid, f"{OPT}opt_minuit.py::minuit_optimizer._get_minimizer [{lab}]", "start = [v0, i1]; limits = bounds; fixed = [True, False]")
         except errs as e:
             ctx.unrecognised(rid, mc_, f"minuit_optimizer._get_minimizer [{lab}]", f"not interpretable: {type(e).__name__}: {e}")
+
+
+def jax_objective_point(ctx, rid, repo, table, mk, shim):
+    """shim o _final_objective composed by interpretation (shared by C05.R4 and C13.R4)."""
+    from . import viewers as _viewers
+    # jax: the jitted objective stitches by itself from the pieces shim hands over -- composed end to end, for fixed
+    # parameters listed in ascending AND in another order (the optimiser API accepts any order)
+    jrel = table.get("jax")
+    if jrel is not None and repo.has_func(jrel, "_final_objective"):
+        fo = repo.func(jrel, "_final_objective")
+        ctx.touch(fo)
+        for fixed_list in ([0, 2], [2, 0], [1], [3, 0, 1]):
+            npar = 4
+            free_at = [j for j in range(npar) if j not in fixed_list]
+            site = f"{jrel}::_final_objective o shim [fixed_vals listed as {fixed_list}]"
+            try:
+                cap = {}
+
+                def wrap_rec(a2, k2, cap=cap):
+                    cap["jit_pieces"] = k2.get("jit_pieces")
+                    return Obj("OBJECTIVE")
+
+                seen_obj = []
+                w = _viewers.world(repo, {"_get_tensor_shim": lambda a, k: PyFunc(wrap_rec, "wrap_objective"), "debug": lambda a, k: None})
+                w.module_env["log"] = Obj("log")
+                w.add_func(mk).add_func(shim).add_func(fo)
+                pdf_ = Obj("pdf", {"config": Obj("config", {"npars": Poly.const(npar)})})
+                w.call_func(shim, [Obj("objective"), Obj("data"), pdf_, [Poly.atom(f"i{j}") for j in range(npar)], [Poly.atom(f"b{j}") for j in range(npar)]],
+                            {"fixed_vals": [(Poly.const(j), Poly.atom(f"v{j}")) for j in fixed_list], "do_grad": True, "do_stitch": True})
+                jp = cap.get("jit_pieces") or {}
+                objective = PyFunc(lambda a, k: (seen_obj.append(a[0]) or [Poly.atom("NLL")]), "objective")
+                from ..listnp import T as _T
+                w.call_func(fo, [_T([Poly.atom(f"q{j}") for j in free_at]), Obj("data"), jp.get("fixed_values"), tuple(jp.get("fixed_idx", ())), tuple(jp.get("variable_idx", ())), jp.get("do_stitch"), objective, pdf_])
+                got = [str(to_poly(x)) for x in seen_obj[0]]
+                want = [f"v{j}" if j in fixed_list else f"q{j}" for j in range(npar)]
+                if got == want:
+                    ctx.holds(rid, site, f"objective evaluated at {want}")
+                else:
+                    ctx.violated(rid, fo, f"jax objective point [fixed_vals listed as {fixed_list}]", "on the jax path the objective (and hence its gradient) is evaluated at a vector in which the fixed parameters do not sit at their own indices with their own values", expected=str(want), found=str(got))
+            except (Undecided, KeyError, TypeError, ValueError, IndexError, AttributeError) as e:
+                ctx.unrecognised(rid, fo, f"jax objective point [fixed_vals listed as {fixed_list}]", f"not interpretable: {type(e).__name__}: {e}")
+
